@@ -159,7 +159,7 @@ def two_cycles(rng):
     return D
 
 
-def reuse_mutate_cases(dss, configs, schemes, rng, flags=(1,), every=None, env="nocplex"):
+def reuse_mutate_cases(dss, configs, schemes, rng, flags=(1,), every=None, env="nocplex", all_ops=False):
     """the SAME algorithm and dataset objects are used, the dataset is modified in place, then the measured run"""
     out = []
     for ci, cfg in enumerate(configs):
@@ -175,12 +175,13 @@ def reuse_mutate_cases(dss, configs, schemes, rng, flags=(1,), every=None, env="
             if len(U) >= 2:
                 ops.append({"op": "remove_elements", "S": [U[(k + ci) % len(U)]]})
             ops.append({"op": "remove_rate", "p": 1, "q": 2})
-            op = ops[(k + ci) % len(ops)]
-            for f in flags:
-                if cfg == "ExactCplex(opt)" and f == 0:
-                    continue
-                out.append({"D": D, "naming": ["ints", "letters"][k % 2], "sch": list(schemes[(k + ci) % len(schemes)]),
-                            "cfg": cfg, "flag": f, "env": e, "kseed": k, "reuse": {"kind": "mutate", "ops": [op]}})
+            for op in (ops if all_ops else [ops[(k + ci) % len(ops)]]):
+                for f in flags:
+                    if cfg == "ExactCplex(opt)" and f == 0:
+                        continue
+                    out.append({"D": D, "naming": ["ints", "letters"][k % 2],
+                                "sch": list(schemes[(k + ci) % len(schemes)]), "cfg": cfg, "flag": f, "env": e,
+                                "kseed": k, "reuse": {"kind": "mutate", "ops": [op]}})
     return out
 
 
